@@ -37,13 +37,14 @@ func vMembershipConfig() *config.Dcp {
 	return cfg
 }
 
-// H_C10_cbrebalance: an arbitrary live-instance list of 1..4 distinct ids
+// H_C10_cbrebalance: an arbitrary live-instance list of 1..8 distinct ids
 // containing self at an arbitrary place, an arbitrary numbering in effect.
 func H_C10_cbrebalance() {
 	setMerge(true)
-	n := 1 + choose("instances", 4)
+	n := 1 + choose("instances", 8)
 	self := choose("self", n)
-	ids := []string{"_connector:cbgo:grp:instance:a", "_connector:cbgo:grp:instance:b", "_connector:cbgo:grp:instance:c", "_connector:cbgo:grp:instance:d"}
+	ids := []string{"_connector:cbgo:grp:instance:a", "_connector:cbgo:grp:instance:b", "_connector:cbgo:grp:instance:c", "_connector:cbgo:grp:instance:d",
+		"_connector:cbgo:grp:instance:e", "_connector:cbgo:grp:instance:f", "_connector:cbgo:grp:instance:g", "_connector:cbgo:grp:instance:h"}
 	bus := &vMemberBus{}
 	h := &cbMembership{bus: bus, id: []byte(ids[self]), membershipConfig: vMembershipConfig().GetCouchbaseMembership()}
 	if nondetBool("hasInfo") {
